@@ -23,6 +23,11 @@ fn probe_c2v(depth: u8) -> Probe {
   Probe { n_hash: 0, hash: 0, center: (0, 0), neigh: vec![], dist: d.to_bits() }
 }
 
+fn probe_c2v_range(a: u8, b: u8) -> Probe {
+  let v = cdshealpix::largest_center_to_vertex_distances_with_radius(a, b, 1.2345, 0.4321, 0.01);
+  Probe { n_hash: v.len() as u64, hash: 0, center: (0, 0), neigh: v.iter().map(|x| x.to_bits()).collect(), dist: 0 }
+}
+
 pub fn run(args: &Args) {
   let nthreads = args.u64("threads", 4) as usize;
   let delay = args.u64("delay-ns", 0);
@@ -101,13 +106,32 @@ pub fn run(args: &Args) {
           None => { vh::log(vh::RESP, tb, d, 0, false); observed.push(((tb, d), seq_marker, None)); }
         }
       }
+      // range call: the per-depth bounds of a whole range of depths in one call (what every coverage query does), over the range
+      // spanned by the constants depths this thread has used so far: the ends exist, the depths in between may not. Logged as
+      // one call on the first depth of the range; the constructions it triggers for the other depths are `construct` events of
+      // keys other than the requested one (TConstructForeign). Every element is compared with the single-threaded values.
+      {
+        let mut cd: Vec<u8> = observed.iter().filter(|o| (o.0).0 == vh::TABLE_C2V && o.2.is_some()).map(|o| (o.0).1).collect();
+        cd.sort(); cd.dedup();
+        if cd.len() >= 2 && (t + cd.len()) % 2 == 0 {
+          let (a, b) = (cd[0], cd[cd.len() - 1] + 1);
+          vh::log(vh::INV, vh::TABLE_C2V, a, 0, true);
+          let r = guarded(|| probe_c2v_range(a, b));
+          let seq_marker = observed.len() as u64;
+          let key = (200 + (b - a), a);
+          match r {
+            Some(p) => { vh::log(vh::RESP, vh::TABLE_C2V, a, 0, true); observed.push((key, seq_marker, Some(p))); }
+            None => { vh::log(vh::RESP, vh::TABLE_C2V, a, 0, false); observed.push((key, seq_marker, None)); }
+          }
+        }
+      }
       // steady state: the keys this thread has already obtained once are now requested in a tight loop, interleaved over the
       // depths, while the other threads do the same (or are still in their first uses). Whatever sits in front of the tables
       // (a "last depth" shortcut made of several words, a per-thread slot) must keep handing out the object of the REQUESTED
       // key. A call on a key the caller has already obtained returns the same object whenever it runs, so logging its
       // invocation and response together after the fact is sound; only the first two calls and the anomalous ones (a probe
       // that differs from the first probe this thread made for the key, or a panic) are logged, each judged like any response.
-      let mine: Vec<(u8, u8)> = { let mut v: Vec<(u8, u8)> = observed.iter().filter(|o| o.2.is_some()).map(|o| o.0).collect(); v.sort(); v.dedup(); v };
+      let mine: Vec<(u8, u8)> = { let mut v: Vec<(u8, u8)> = observed.iter().filter(|o| o.2.is_some() && (o.0).0 < 200).map(|o| o.0).collect(); v.sort(); v.dedup(); v };
       if mine.len() >= 2 {
         let first: std::collections::HashMap<(u8, u8), Probe> = observed.iter().filter_map(|o| o.2.clone().map(|p| (o.0, p))).rev().collect();
         let mut logged = 0;
@@ -155,6 +179,10 @@ pub fn run(args: &Args) {
         let idx = per_thread_resp_index[t];
         per_thread_resp_index[t] += 1;
         let (key, _, probe) = &observed[t][idx];
+        if key.0 >= 200 && !reference.contains_key(key) {
+          // reference of a range call: the same call, single-threaded, now that the race is over
+          if let Some(p) = guarded(|| probe_c2v_range(key.1, key.1 + (key.0 - 200))) { reference.insert(*key, p); }
+        }
         let ok = probe.as_ref().map_or(false, |p| Some(p) == reference.get(key));
         let n = addr_ids.len() as i64;
         let ptr = if e.table == vh::TABLE_LAYER && e.ok { *addr_ids.entry(e.ptr).or_insert(n) } else { 0 };
